@@ -166,6 +166,13 @@ namespace ip {
 			return;
 		}
 
+		if (m_bound_to != ip::tcp::endpoint())
+		{
+			// already bound. Binding again would leave the first binding behind
+			ec = error::invalid_argument;
+			return;
+		}
+
 		ip::tcp::endpoint addr = m_io_service.bind_socket(this, ep, ec);
 		if (ec) return;
 		m_bound_to = addr;
